@@ -146,6 +146,7 @@ func runMutantChild(id string, d *propDef, seedDir string) int {
 			return
 		}
 		c := &Ctx{P: p, Prop: id, Tier: "quick"}
+		flattenFields, flattenPrefer = false, ""
 		d.Run(c)
 		c.finish()
 		seen := map[string]bool{}
